@@ -14,7 +14,7 @@ RULE = ("synthetic files over all layout classes/2D/irregular x in-range ops of 
         "fetches the data section once")
 
 
-def header_and_open_io(ctx, fi, rng):
+def header_and_open_io(ctx, fi, rng, model=None):
     desc = {'n': fi.n, 'bs': fi.lay.bs, 'q': fi.lay.q, 'arrays': len(fi.arrays), 'dups': len(fi.dups)}
     for blob in (False, True):
         s = readcheck.ReadSession(fi, blob=blob)
@@ -33,6 +33,15 @@ def header_and_open_io(ctx, fi, rng):
                 want = sorted((s.data_start + spec.DISK * fi.lay.n_blocks + k * stride + 4 * t, 4)
                               for k in range(len(fi.arrays)))
                 got = sorted((o, l) for (o, l, _) in log)
+                if model is not None:
+                    # K: Model/Container.headerReads / openReads vs the observed reads (offsets from the file's own version)
+                    ctx.stats['corr_requests'] += 1
+                    ans = model.ask(f'hdrio {fi.version} {s.data_start // spec.DISK} {fi.lay.n_blocks} {4 * fi.n[0] * fi.n[1]} '
+                                    f'{len(fi.arrays)} {t}')
+                    real = (','.join(f'{o}:{l}' for (o, l) in got) + ' | '
+                            + ','.join(f'{o}:{l}' for (o, l, _) in s.open_log))
+                    if ans != real:
+                        ctx.corr_fail('Model.Container/headerReads', f'hdrio ... {t}', ans[:160], real[:160], {'file': desc, 'blob': blob})
                 if got != want:
                     ctx.fail(f'gen_trace_header({t}) of a regular file read {len(got)} ranges totalling '
                              f'{sum(l for _, l in got)} bytes; the property allows 4 bytes per stored array '
@@ -73,13 +82,13 @@ def run(ctx):
                 finally:
                     s.close()
             if k % 4 == 0:
-                header_and_open_io(ctx, fi, rng)
+                header_and_open_io(ctx, fi, rng, model)
         # legacy files with ONE header block (format 0.0.x: no SEG-Y file-header block): open and reads, both backends
         for k in range(6 if ctx.quick else 60):
             n, bs, q = gen.geometry_3d(rng, klass='default', max_voxels=20_000)
             fi = synth.make(ctx.path('legacy.sgz'), n, bs, q, rng, version=0, n_arrays=0, n_header_blocks=1)
             ctx.stats['legacy_one_header_block'] += 1
-            header_and_open_io(ctx, fi, rng)
+            header_and_open_io(ctx, fi, rng, model)
             for blob in (False, True):
                 s = readcheck.ReadSession(fi, blob=blob)
                 try:
